@@ -32,8 +32,10 @@ def parse_case(case):
     tasks = []
     body = body.strip()
     if body:
-        for t in body.split(";"):
-            t = t.strip()
+        fields = [t.strip() for t in body.split(";")]
+        if fields and fields[-1] == "":
+            fields = fields[:-1]          # a trailing ';' does not start a task
+        for t in fields:
             nested = t.startswith(">")
             if nested:
                 t = t[1:]
@@ -172,6 +174,75 @@ class SeqGen:
         return [(False, a) for a in tasks]
 
 
+# schedulers of the main stream.  ll, llp and ip re-queue a task that returned AGAIN where it
+# is selected again at once: with few threads the writer's retry path livelocks (finding
+# C03-lifo-again-livelock); they are exercised by the defect stream only.
+MAIN_SCHEDS = ("lfq", "ap", "gd", "ltq", "lhq", "pbq", "spq", "rnd")
+LIFO_SCHEDS = ("ll", "llp", "ip")
+
+
+def expected_line(case):
+    """what the observation must be when C03 and C04 hold (python reference, not the model)"""
+    hdr, tasks = parse_case(case)
+    ins, data = seq_reference(hdr["ndata"], tasks)
+    return ("in:" + "".join(" %d=%s" % (i, ",".join(map(str, x)) if x else "-") for i, x in enumerate(ins))
+            + " | data:" + "".join(" %d" % v for v in data) + " | runs:" + " 1" * len(tasks)
+            + " | conflicts=0 null=0")
+
+
+def defect_class(case):
+    """known-defect class an input belongs to (None = main stream)"""
+    hdr, tasks = parse_case(case)
+    worst = None
+    order = {None: 0, "rw": 1, "rr": 2, "wx": 3}
+    for _, a in tasks:
+        c = repeat_class(a)
+        if order[c] > order[worst]:
+            worst = c
+    if worst:
+        return "repeat-" + worst
+    if hdr["sched"] in LIFO_SCHEDS:
+        return "lifo-again"
+    return None
+
+
+def c03_verdict(case, obs):
+    """C03 on one observation: None or (kind, text)"""
+    if obs.startswith("<hang"):
+        return ("hang", "the taskpool never completed: some inserted task never ran (%s)" % obs)
+    if obs.startswith("<"):
+        return ("crash", "no observation: " + obs[:100])
+    o = parse_obs(obs)
+    if o is None:
+        return ("unparsable", "unparsable observation " + obs[:80])
+    hdr, tasks = parse_case(case)
+    ins, data = seq_reference(hdr["ndata"], tasks)
+    if len(o["runs"]) != len(tasks) or len(o["ins"]) != len(tasks):
+        return ("unparsable", "observation has %d tasks, case has %d" % (len(o["runs"]), len(tasks)))
+    for t, c in enumerate(o["runs"]):
+        if c != 1:
+            return ("runs", "task %d ran %d times" % (t, c))
+    if o["null"] != 0:
+        return ("null", "%d flows received a NULL data pointer" % o["null"])
+    for t, (got, want) in enumerate(zip(o["ins"], ins)):
+        if got != [str(v) for v in want]:
+            return ("value", "task %d observed inputs %s, sequential execution in insertion order gives %s"
+                    % (t, ",".join(got) or "-", ",".join(map(str, want)) or "-"))
+    if o["data"] != data:
+        return ("value", "final data %s, sequential execution gives %s" % (o["data"], data))
+    return None
+
+
+def c04_verdict(case, obs):
+    o = parse_obs(obs)
+    if o is None:
+        return None             # no observation of execution intervals (hang / crash: C03's business)
+    if o["conflicts"] != 0:
+        return ("overlap", "%d conflicting overlaps: a task ran while another task holding the same datum, "
+                "one of them for writing, was inside its body" % o["conflicts"])
+    return None
+
+
 class DTDCheck(Check):
     """common plugin part of the DTD properties (component `dtd`)."""
     comp = "dtd"
@@ -180,23 +251,32 @@ class DTDCheck(Check):
     harness_src = "harness/h_dtd.c"
     link_parsec = True
     per_check_bin = True
-    case_timeout_ms = 60000
+    case_timeout_ms = 30000
+    defect_timeout_ms = 6000
+    styles = ("mixed", "mixed", "readers", "readers", "chain", "groups", "wide")
 
     def impl_timeout(self):
         return 1500 if self.tier == "quick" else 6000
 
+    def mbin(self):
+        # the two DTD checks may run at the same time: one driver binary per check
+        import vcheck
+        return os.path.join(vcheck.BIN, "vm_" + self.comp + "_" + self.id)
+
     def run_impl(self, casefile, n):
         env = dict(os.environ)
-        env["H_DTD_TIMEOUT_MS"] = str(self.case_timeout_ms)
+        env["H_DTD_TIMEOUT_MS"] = str(self.defect_timeout_ms if "-defects-" in os.path.basename(casefile)
+                                      else self.case_timeout_ms)
         rc, o, e = run([self.hbin(), casefile], timeout=self.impl_timeout(), env=env)
         lines = o.splitlines()
-        st = {"maxr": 0, "maxw": 0, "maxrw": 0, "overlapping_reader_cases": 0}
+        st = self.cov.setdefault("impl_overlap_stats",
+                                 {"max_concurrent_readers": 0, "max_writers": 0, "max_readers_with_writer": 0,
+                                  "cases_with_overlapping_readers": 0})
         for m in re.finditer(r"#stat maxw=(\d+) maxrw=(\d+) maxr=(\d+)", e):
-            st["maxw"] = max(st["maxw"], int(m.group(1)))
-            st["maxrw"] = max(st["maxrw"], int(m.group(2)))
-            st["maxr"] = max(st["maxr"], int(m.group(3)))
-            st["overlapping_reader_cases"] += int(m.group(3)) > 1
-        self.cov["impl_overlap_stats"] = st
+            st["max_writers"] = max(st["max_writers"], int(m.group(1)))
+            st["max_readers_with_writer"] = max(st["max_readers_with_writer"], int(m.group(2)))
+            st["max_concurrent_readers"] = max(st["max_concurrent_readers"], int(m.group(3)))
+            st["cases_with_overlapping_readers"] += int(m.group(3)) > 1
         if rc != 0 or len(lines) != n:
             lines = lines[:n] + ["<impl rc=%d: %s>" % (rc, e.strip()[-200:].replace("\n", " "))] * (n - len(lines))
         return lines
@@ -205,12 +285,12 @@ class DTDCheck(Check):
     def configs(self):
         """(threads, sched, window, threshold) tuples of this run: each is one worker process"""
         r = self.rng
-        base = [(1, "lfq", 0, 0), (4, "lfq", 0, 0), (16, "ap", 0, 0), (4, "ll", 4, 2), (8, "gd", 1, 0), (16, "lfq", 2, 1)]
+        base = [(1, "lfq", 0, 0), (4, "lfq", 0, 0), (16, "ap", 0, 0), (4, "gd", 4, 2), (8, "pbq", 1, 0), (16, "lfq", 2, 1)]
         extra = []
-        nextra = 2 if self.tier == "quick" else 10
+        nextra = 2 if self.tier == "quick" else 12
         for _ in range(nextra):
             w = r.pick([0, 1, 2, 3, 4, 8, 16])
-            extra.append((r.pick([1, 2, 3, 4, 8, 16]), r.pick(SCHEDS), w, r.range(0, max(0, w)) if w else 0))
+            extra.append((r.pick([1, 2, 3, 4, 8, 16]), r.pick(MAIN_SCHEDS), w, r.range(0, w) if w else 0))
         return base + extra
 
     def gen_cases(self, nseq, maxtasks):
@@ -218,11 +298,10 @@ class DTDCheck(Check):
         g = SeqGen(r)
         cfgs = self.configs()
         out = []
-        styles = ["mixed", "mixed", "readers", "readers", "chain", "groups", "wide"]
         for i in range(nseq):
             ndata = r.range(1, 6)
             nt = r.pick([r.range(1, 8), r.range(5, 30), r.range(20, maxtasks)])
-            tasks = g.sequence(ndata, nt, r.pick(styles))
+            tasks = g.sequence(ndata, nt, r.pick(self.styles), repeats=False)
             spin = r.pick([0, r.range(1, 1000), r.range(1, 1000)])
             # the same sequence under a few configurations
             for cfg in r.shuffle(cfgs)[:r.range(2, 3)]:
@@ -234,6 +313,40 @@ class DTDCheck(Check):
                     flags |= 1          # no flush before the wait
                 out.append(case_txt(ndata, th, sc, w, h, spin, flags, tasks))
         return out
+
+    def cases(self):
+        if self.tier == "quick":
+            return self.gen_cases(45, 60)
+        return self.gen_cases(400, 200)
+
+    # ---- inputs of the known-defect classes: oracle only, never part of the differential stream
+    def defect_cases(self):
+        return []
+
+    def main_flow(self):
+        fails, oracle_fail, cases, impl, model = super().main_flow()
+        extra = [] if os.environ.get("VERIF_DTD_SKIP_DEFECTS") else list(self.defect_cases())
+        ran = bool(impl) and len(impl) == len(cases)
+        if extra and ran:
+            eimpl, emodel = self.correspond(extra, "defects")
+            hits = 0
+            for i, (c, a) in enumerate(zip(extra, eimpl)):
+                why = self.oracle(c, a)
+                if why:
+                    hits += 1
+                    oracle_fail.append((len(cases) + i, why))
+            self.cov["defect_stream"] = {"cases": len(extra), "violations": hits,
+                                         "note": "inputs of known-defect classes (intra-task repeated data, LIFO "
+                                                 "schedulers); decided by the oracle only, not diffed with the model"}
+            cases = cases + extra
+            impl = impl + eimpl
+            model = model + emodel
+        return fails, oracle_fail, cases, impl, model
+
+    def signature(self, case, obs):
+        v = c03_verdict(case, obs) or c04_verdict(case, obs)
+        kind = v[0] if v else "none"
+        return "%s-%s" % (defect_class(case) or "main", kind)
 
     def nontrivial_key(self, case):
         hdr, tasks = parse_case(case)
@@ -249,7 +362,7 @@ class DTDCheck(Check):
 
     def dist(self, cases):
         d = {"cases": len(cases), "tasks_hist": {}, "threads": {}, "sched": {}, "window": {}, "hold": 0,
-             "repeat_tasks": 0, "max_tasks": 0}
+             "noflush": 0, "max_tasks": 0, "sequences": len(set(c.partition("|")[2] for c in cases))}
         for c in cases:
             hdr, tasks = parse_case(c)
             b = "1-8" if len(tasks) <= 8 else "9-30" if len(tasks) <= 30 else "31-60" if len(tasks) <= 60 else "61+"
@@ -258,5 +371,17 @@ class DTDCheck(Check):
             for k, f in (("threads", "threads"), ("sched", "sched"), ("window", "window")):
                 d[k][str(hdr[f])] = d[k].get(str(hdr[f]), 0) + 1
             d["hold"] += (hdr["flags"] >> 1) & 1
-            d["repeat_tasks"] += sum(1 for _, a in tasks if repeat_class(a))
+            d["noflush"] += hdr["flags"] & 1
         return d
+
+    def search_cases(self):
+        # directed small sequences: every mode pair on one datum, reader groups of growing size
+        out = []
+        for th, sc in ((1, "lfq"), (4, "lfq"), (16, "ap")):
+            for a in "rwx":
+                for b in "rwx":
+                    for c in "rwx":
+                        out.append("dtd 2 %d %s 0 0 7 2 | 0%s ; 0%s 1x ; 0%s ; 1r 0r" % (th, sc, a, b, c))
+            for n in (1, 2, 5, 12):
+                out.append("dtd 1 %d %s 0 0 9 2 | 0x ; %s ; 0x ; %s ; 0w" % (th, sc, " ; ".join(["0r"] * n), " ; ".join(["0r"] * n)))
+        return out
